@@ -160,6 +160,10 @@ def run_history(lab, mon, ops, rng=None, label="exhaustive"):
             except Exception as ex:
                 got_ok = repr(ex)
             mon.check("hist.observable_result", got_ok == want_ok, lambda: W(op="del", name=n, got=got_ok, want=want_ok))
+        elif op == "set_none_a":
+            # an attribute that EXISTS with the value None (context.proxy = None) is not a missing attribute
+            ctx.a = None
+            model.set("a", None)
         elif op in ("root_a", "root"):
             n = name or "a"
             val[0] += 1
@@ -693,7 +697,7 @@ def run(spec, mon):
                     sink.seek(0)
                     sink.truncate()
         mon.count("exhaustive_histories_enumerated", idx if shard == 0 else 0)
-        ALL = OPS + ["cl_nesting", "cl_nesting", "cl_same", "cl_same", "cl_same_layer_f", "cl_same_layer_s", "fx_nested", "push_r", "cl_layer_s", "cl_layer_t", "cl_layer_x", "fx_plain", "fx_composite", "user_mode_raise", "create",
+        ALL = OPS + ["set_none_a", "set_none_a", "create", "cl_nesting", "cl_nesting", "cl_same", "cl_same", "cl_same_layer_f", "cl_same_layer_s", "fx_nested", "push_r", "cl_layer_s", "cl_layer_t", "cl_layer_x", "fx_plain", "fx_composite", "user_mode_raise", "create",
                      ("set", "c"), ("get", "c"), ("del", "b"), ("in", "b"), ("root", "b"), ("get", "fx_value"), ("assign", "b")]
         for i in range(150 if tier == "quick" else 8000):
             ops = [rng.choice(ALL) for _ in range(rng.randint(5, 40))]
